@@ -853,6 +853,10 @@ class Ref:
                     kw[f["n"]] = None
                     continue
                 try:
+                    if f.get("boxed_de"):
+                        # the field's own one-way registration: a plain callable fed the raw input
+                        kw[f["n"]] = self._call(getattr(self.fam.module, f["boxed_de"] + "_DE"), val)
+                        continue
                     kw[f["n"]] = self.dec(f["t"], val, self._field_ctx(inner, f, "deserialize"))
                 except RefError as e:
                     raise RefInvalid(name, f["n"], val, e)
